@@ -73,6 +73,7 @@ func (s *store) gc() {
 		m.Lock()
 		defer m.Unlock()
 		if m.expired(now) || !m.isOk() {
+			m.unlinked = true
 			s.metadata.Delete(key)
 			return true
 		}
